@@ -129,10 +129,12 @@ package genetics
 //@   requires g != nil && nonNilTraits(g.Traits) && nonNilNodes(g.Nodes) && nonNilGenes(g.Genes) && geneLinksWF(g.Genes)
 //@   requires endpointsAreNodes(g)
 //@   requires sortedNodesLT(g.Nodes)
-//@   requires len(g.ControlGenes) == 0
-//@   modifies nothing
+//@   requires [modulesWF] forall i :: 0 <= i && i < len(g.ControlGenes) ==> g.ControlGenes[i] != nil && g.ControlGenes[i].ControlNode != nil && (forall k :: 0 <= k && k < len(g.ControlGenes[i].ControlNode.Incoming) ==> g.ControlGenes[i].ControlNode.Incoming[k] != nil && g.ControlGenes[i].ControlNode.Incoming[k].InNode != nil && (exists a :: 0 <= a && a < len(g.Nodes) && g.Nodes[a].Id == g.ControlGenes[i].ControlNode.Incoming[k].InNode.Id)) && (forall k :: 0 <= k && k < len(g.ControlGenes[i].ControlNode.Outgoing) ==> g.ControlGenes[i].ControlNode.Outgoing[k] != nil && g.ControlGenes[i].ControlNode.Outgoing[k].OutNode != nil && (exists a :: 0 <= a && a < len(g.Nodes) && g.Nodes[a].Id == g.ControlGenes[i].ControlNode.Outgoing[k].OutNode.Id))
+//@   set gSnap = allocSet() @ entry
+//@   modifies ghost gSnap
 //@   ensures [noerr] result1 == nil && result0 != nil && fresh(result0)
 //@   ensures [id] result0.Id == newId
+//@   ensures [modules] len(result0.ControlGenes) == len(g.ControlGenes) && (forall i :: 0 <= i && i < len(g.ControlGenes) ==> result0.ControlGenes[i] != nil && fresh(result0.ControlGenes[i]) && fresh(result0.ControlGenes[i].ControlNode) && result0.ControlGenes[i].InnovationNum == g.ControlGenes[i].InnovationNum && result0.ControlGenes[i].IsEnabled == g.ControlGenes[i].IsEnabled && result0.ControlGenes[i].ControlNode.Id == g.ControlGenes[i].ControlNode.Id)
 //@   ensures [traits] len(result0.Traits) == len(g.Traits) && (forall i :: 0 <= i && i < len(g.Traits) ==> fresh(result0.Traits[i]) && result0.Traits[i].Id == g.Traits[i].Id && len(result0.Traits[i].Params) == len(g.Traits[i].Params) && fresh(result0.Traits[i].Params))
 //@   ensures [traitParams] forall i :: 0 <= i && i < len(g.Traits) ==> seq(result0.Traits[i].Params) == seq(g.Traits[i].Params)
 //@   ensures [nodes] len(result0.Nodes) == len(g.Nodes) && (forall i :: 0 <= i && i < len(g.Nodes) ==> fresh(result0.Nodes[i]) && result0.Nodes[i].Id == g.Nodes[i].Id && result0.Nodes[i].NeuronType == g.Nodes[i].NeuronType && result0.Nodes[i].ActivationType == g.Nodes[i].ActivationType)
@@ -151,8 +153,41 @@ package genetics
 //@     invariant forall i :: 0 <= i && i <= #idx ==> seq(traitsDup[i].Params) == seq(g.Traits[i].Params)
 // Modular genomes: duplication of control genes is outside the contracts of this revision; the
 // precondition makes every verified caller prove that it never reaches this function.
+// ---- C06 (modules): the copy of a modular genome joins only its own nodes ---------------------------------
+// gSnap: the references that existed when Genome.duplicate was entered ("the original's world").
+//@ ghost gSnap (Array Int Bool)
+//@ pred modulesFrame() = (forall x *network.NNode :: wasAllocated(x) ==> sameSlice(x.Incoming, old(x.Incoming)) && sameSlice(x.Outgoing, old(x.Outgoing))) && (forall b :: wasAllocated(b) ==> Mem[*network.Link][b] == old(Mem[*network.Link][b])) && (forall b :: wasAllocated(b) ==> Mem[float64][b] == old(Mem[float64][b])) && (forall b :: wasAllocated(b) ==> Mem[*network.NNode][b] == old(Mem[*network.NNode][b])) && (forall b :: wasAllocated(b) ==> Mem[*MIMOControlGene][b] == old(Mem[*MIMOControlGene][b]))
+//@ func NewMIMOGene
+//@   props C06
+//@   mode nosafety
+//@   modifies nothing
+//@   ensures [fresh] result != nil && fresh(result) && result.ControlNode == controlNode && result.InnovationNum == innovNum && result.MutationNum == mutNum && result.IsEnabled == enabled
+//@   loop 1:
+//@     invariant gene != nil && fresh(gene) && fresh(gene.ioNodes) && (forall b :: wasAllocated(b) ==> Mem[*network.NNode][b] == old(Mem[*network.NNode][b]))
+//@   loop 2:
+//@     invariant gene != nil && fresh(gene) && fresh(gene.ioNodes) && (forall b :: wasAllocated(b) ==> Mem[*network.NNode][b] == old(Mem[*network.NNode][b]))
 //@ func (*Genome).duplicateControlGenes
-//@   requires [nonModularOnly] false
+//@   props C06
+//@   mode nosafety
+//@   assume_pre NewNNodeCopy, TraitWithId, NewLinkCopy
+//@   requires g != nil && nodeIdMap != nil && (forall i :: 0 <= i && i < len(g.ControlGenes) ==> g.ControlGenes[i] != nil && g.ControlGenes[i].ControlNode != nil)
+//@   requires [snapshotIsOlder] forall r :: sel(gSnap, r) ==> allocated(r)
+//@   requires [endpointsMapped] forall i :: 0 <= i && i < len(g.ControlGenes) ==> (forall k :: 0 <= k && k < len(g.ControlGenes[i].ControlNode.Incoming) ==> g.ControlGenes[i].ControlNode.Incoming[k] != nil && g.ControlGenes[i].ControlNode.Incoming[k].InNode != nil && mapHas(nodeIdMap, g.ControlGenes[i].ControlNode.Incoming[k].InNode.Id)) && (forall k :: 0 <= k && k < len(g.ControlGenes[i].ControlNode.Outgoing) ==> g.ControlGenes[i].ControlNode.Outgoing[k] != nil && g.ControlGenes[i].ControlNode.Outgoing[k].OutNode != nil && mapHas(nodeIdMap, g.ControlGenes[i].ControlNode.Outgoing[k].OutNode.Id))
+//@   ensures [noerr] result1 == nil
+//@   requires [copyNodesOnly] forall k :: mapHas(nodeIdMap, k) ==> nodeIdMap[k] != nil && !sel(gSnap, nodeIdMap[k])
+//@   assert [ownEndpoints] result != nil && !sel(gSnap, result.InNode) && !sel(gSnap, result.OutNode) && (result.InNode == nodeCopy || result.OutNode == nodeCopy) @ after * NewLinkCopy
+//@   modifies nothing
+//@   ensures [ownModules] result1 == nil ==> len(result0) == len(g.ControlGenes) && fresh(result0) && (forall i :: 0 <= i && i < len(result0) ==> result0[i] != nil && fresh(result0[i]) && fresh(result0[i].ControlNode) && result0[i].InnovationNum == g.ControlGenes[i].InnovationNum && result0[i].MutationNum == g.ControlGenes[i].MutationNum && result0[i].IsEnabled == g.ControlGenes[i].IsEnabled && result0[i].ControlNode.Id == g.ControlGenes[i].ControlNode.Id)
+//@   loop 1:
+//@     invariant -1 <= #idx && #idx < len(g.ControlGenes) && len(controlGenesDup) == len(g.ControlGenes) && fresh(controlGenesDup) && modulesFrame() && oldLinksKept()
+//@     invariant [ownModules] forall i :: 0 <= i && i <= #idx ==> controlGenesDup[i] != nil && fresh(controlGenesDup[i]) && fresh(controlGenesDup[i].ControlNode)
+//@     invariant [sameNumbers] forall i :: 0 <= i && i <= #idx ==> controlGenesDup[i].InnovationNum == g.ControlGenes[i].InnovationNum && controlGenesDup[i].MutationNum == g.ControlGenes[i].MutationNum && controlGenesDup[i].IsEnabled == g.ControlGenes[i].IsEnabled
+//@     invariant [sameNodeIds] forall i :: 0 <= i && i <= #idx ==> controlGenesDup[i].ControlNode.Id == g.ControlGenes[i].ControlNode.Id
+//@     invariant [geneFrames] (forall x *MIMOControlGene :: wasAllocated(x) ==> x.InnovationNum == old(x.InnovationNum) && x.MutationNum == old(x.MutationNum) && x.IsEnabled == old(x.IsEnabled) && x.ControlNode == old(x.ControlNode)) && (forall x *network.NNode :: wasAllocated(x) ==> x.Id == old(x.Id))
+//@   loop 2:
+//@     invariant -1 <= #idx && nodeCopy != nil && fresh(nodeCopy) && nodeCopy.Id == controlNode.Id && fresh(controlGenesDup) && fresh(nodeCopy.Incoming) && fresh(nodeCopy.Outgoing) && modulesFrame() && oldLinksKept()
+//@   loop 3:
+//@     invariant -1 <= #idx && nodeCopy != nil && fresh(nodeCopy) && nodeCopy.Id == controlNode.Id && fresh(controlGenesDup) && fresh(nodeCopy.Incoming) && fresh(nodeCopy.Outgoing) && modulesFrame() && oldLinksKept()
 
 // ---- C08: speciation ------------------------------------------------------------------------------
 // The compatibility distance enters as a function of the two genomes (their state is not modified during
